@@ -43,13 +43,15 @@ theorem reachable_of_run {sp : Space} (hsp : SpaceOK sp) (ops : List Op) : Reach
 
 /-- All space types of the model are well-formed: grids of every kind, dimension vector, torus flag and
     capacity (hex: 2-D), networks on any edge list over nodes 0..n-1 (directed or not), Voronoi grids on
-    any triangle list over n centroids. -/
+    any triangle list over n centroids — with a constant capacity or with the default, area-based one. -/
 theorem C06_spaces_wellformed :
     (∀ k dims torus cap, (k = GridKind.hex → dims.length = 2) → SpaceOK (gridSpace k dims torus cap)) ∧
     (∀ directed n edges cap, (∀ e ∈ edges, e.1 < n ∧ e.2 < n) → SpaceOK (netSpace directed n edges cap)) ∧
-    (∀ n tris cap, (∀ t ∈ tris, t.1 < n ∧ t.2.1 < n ∧ t.2.2 < n) → SpaceOK (vorSpace n tris cap)) :=
+    (∀ n tris cap, (∀ t ∈ tris, t.1 < n ∧ t.2.1 < n ∧ t.2.2 < n) → SpaceOK (vorSpace n tris cap)) ∧
+    (∀ n tris areas, (∀ t ∈ tris, t.1 < n ∧ t.2.1 < n ∧ t.2.2 < n) → SpaceOK (vorSpaceAreas n tris areas)) :=
   ⟨fun k dims torus cap hk => gridSpace_ok k dims torus cap hk,
-   fun d n e cap he => netSpace_ok d n e cap he, fun n t cap ht => vorSpace_ok n t cap ht⟩
+   fun d n e cap he => netSpace_ok d n e cap he, fun n t cap ht => vorSpace_ok n t cap ht,
+   fun n t ar ht => vorSpaceAreas_ok n t ar ht⟩
 
 /-- Mirror: after any history, for every agent still in the model, the agent reports cell `c` iff `c` lists
     it; it is listed at most once there; and no other cell lists it.  (For *every* agent, in the model or
@@ -74,6 +76,20 @@ theorem C06_mirror {sp : Space} (hsp : SpaceOK sp) {s : State} (h : Reachable sp
 theorem C06_capacity {sp : Space} (hsp : SpaceOK sp) {s : State} (h : Reachable sp s) (c : Cid) (k : Nat)
     (hk : sp.cap c = some k) (hk1 : 1 ≤ k) : (s.occ c).length ≤ k :=
   (reachable_inv hsp h).cap c k hk (by omega)
+
+/-- The default `capacity_function` of `VoronoiGrid` (`round_float`): the i-th cell, of exact area `num/den`, gets
+    the capacity `k = int(500 · area)`, i.e. `k ≤ 500 · num/den < k + 1`, whatever `capacity` was passed to the
+    constructor; and after any history a cell with `k ≥ 1` holds at most `k` agents (each cell its own bound). -/
+theorem C06_voronoi_default_capacity (n : Nat) (tris : List (Nat × Nat × Nat)) (areas : List (Nat × Nat))
+    (ht : ∀ t ∈ tris, t.1 < n ∧ t.2.1 < n ∧ t.2.2 < n) (i num den : Nat) (ha : areas[i]? = some (num, den)) (hd : 0 < den) :
+    (vorSpaceAreas n tris areas).cap [(i : Int)] = some (roundFloat num den) ∧
+    roundFloat num den * den ≤ 500 * num ∧ 500 * num < (roundFloat num den + 1) * den ∧
+    (∀ s, Reachable (vorSpaceAreas n tris areas) s → 1 ≤ roundFloat num den →
+      (s.occ [(i : Int)]).length ≤ roundFloat num den) := by
+  have hcap : (vorSpaceAreas n tris areas).cap [(i : Int)] = some (roundFloat num den) := by
+    simp [vorSpaceAreas, ha]
+  refine ⟨hcap, (roundFloat_spec num den hd).1, (roundFloat_spec num den hd).2, fun s hr h1 => ?_⟩
+  exact (reachable_inv (vorSpaceAreas_ok n tris areas ht) hr).cap _ _ hcap (by omega)
 
 /-- Emptiness views agree with the truth after any history: `is_empty` is "no agents"; `is_full` is exactly
     "`add_agent` would refuse" (for capacities ≥ 1); on a grid the `empty` property layer / `cell.empty`
@@ -396,6 +412,13 @@ example : (step sp1 (run sp1 (init sp1) [.new .cell, .setCell 0 (some [0, 0])]) 
 example : (dstep (drun sp1 (init sp1) dops1).1 (drun sp1 (init sp1) dops1).2 (.connect [0, 0] [3, 3] none)).2 = .err .key := by decide
 example : ((drun sp1 (init sp1) (dops1 ++ [.disconnect [0, 0] [2, 2]])).1.conn [0, 0]).map (·.1) = [[0, 1], [1, 0]] := by decide
 example : (editSp (vorSpace 3 [(0, 1, 2)] none) (.connect [0] [1] none)).2 = .err .type := by decide
+
+-- default Voronoi capacities: areas 1/250 and 7/1000 give capacities 2 and 3; the third agent is refused by cell 0
+private def vd : Space := vorSpaceAreas 3 [(0, 1, 2)] [(1, 250), (7, 1000), (5, 1)]
+private def vops : List Op := [.new .cell, .new .cell, .new .cell, .setCell 0 (some [0]), .setCell 1 (some [0])]
+example : vd.cap [0] = some 2 ∧ vd.cap [1] = some 3 ∧ vd.cap [2] = some 2500 := by decide
+example : (step vd (run vd (init vd) vops) (.setCell 2 (some [0]))).2 = .err .full ∧
+    (step vd (run vd (init vd) vops) (.setCell 2 (some [1]))).2 = .ok ∧ isFull vd (run vd (init vd) vops) [0] = true := by decide
 
 -- hex: "ne" is a key in odd columns only; two diagonal steps are impossible, one is fine; cardinal names work everywhere
 private def hx : Space := gridSpace .hex [4, 4] false none
